@@ -78,13 +78,16 @@ pub fn typed_decoders(raw: &RawAttribute, tid: TransactionId) -> Result<u32, Vio
     // not by the PRNG)
     let v = &raw.value;
     let fmt_it = v.len() <= 64 || (v.len() + v[0] as usize + v[v.len() - 1] as usize) % (if v.len() <= 1024 { 8 } else { 128 }) == 0;
-    g("RawAttribute::fmt", || {
-        if fmt_it {
-            let _ = format!("{}", raw);
-            let _ = format!("{:?}", raw);
-        }
-        let _ = raw.to_bytes();
-    })?;
+    // (a hand-built attribute of more than 65 535 bytes has no wire form: only its decoders are driven)
+    if v.len() <= 65_535 {
+        g("RawAttribute::fmt", || {
+            if fmt_it {
+                let _ = format!("{}", raw);
+                let _ = format!("{:?}", raw);
+            }
+            let _ = raw.to_bytes();
+        })?;
+    }
     Ok(ok)
 }
 
